@@ -114,6 +114,8 @@ def typingOps (op : String) (a : List String) : Option String :=
       "FAIL:unclassified")
   | "typ.use", _ :: _ => some "ok"
   | "cs.type", [_, sg, _] => (tyArg sg).map fun t => outHex (CallSite.callSiteType t)
+  | "api.fix", [_] => some "ok"
+  | "cs.type", [_, sg, _, _] => (tyArg sg).map fun t => outHex (CallSite.callSiteType t)
   | "ops.subst", _ :: _ => some "ok"
   | "gep.rt", e :: s :: idx => do
     let e ← tyArg e; let s ← tyArg s; let ix ← Gep.mapM? parseRawIdx idx
